@@ -34,6 +34,11 @@ Lemma ro_pwe_O (m : wfsa S) q xs :
   pwe m O q xs = (match xs with [] => wget (wfinal m) q | _ => 0 end) + 0.
 Proof. reflexivity. Qed.
 
+Lemma ro_asrc (s : nat) l (d : nat) (w : S) : asrc (s, l, d, w) = s. Proof. reflexivity. Qed.
+Lemma ro_albl (s : nat) l (d : nat) (w : S) : albl (s, l, d, w) = l. Proof. reflexivity. Qed.
+Lemma ro_adst (s : nat) l (d : nat) (w : S) : adst (s, l, d, w) = d. Proof. reflexivity. Qed.
+Lemma ro_awt (s : nat) l (d : nat) (w : S) : awt (s, l, d, w) = w. Proof. reflexivity. Qed.
+
 Lemma ro_wget_rename (f : nat -> nat) (Hf : forall p q, f p = f q -> p = q) (v : wvec S) q :
   wget (map (fun e => (f (fst e), snd e)) v) (f q) = wget v q.
 Proof.
@@ -136,30 +141,349 @@ Proof.
     + rewrite ro_pwe_O, concat_final_R. cbn [pw]. ring.
     + rewrite ro_pwe_S, concat_final_R, concat_arcs_sum. cbn [pw].
       rewrite (bsum_zero _ (warcs a)), (bsum_zero _ (warcs b)), (bsum_zero _ (wfinal a)); [ring| | |].
-      * intros fe _. apply bsum_zero; intros i _. unfold asrc; cbn [fst snd].
-        rewrite tagL_tagR. reflexivity.
-      * intros ar Har. unfold asrc at 1, albl at 1; cbn [fst snd].
-        change (snd (fst (fst ar))) with (albl ar).
+      * intros fe _. apply bsum_zero; intros i _. rewrite ro_asrc, tagL_tagR. reflexivity.
+      * intros ar Har. rewrite ro_asrc, ro_albl.
         destruct (Nat.eqb (tagR (asrc ar)) (tagR q)); [|reflexivity].
         destruct (albl ar) eqn:E; [reflexivity|]. exfalso; exact (Hb ar Har E).
-      * intros ar _. unfold asrc at 1; cbn [fst snd]. rewrite tagL_tagR. reflexivity.
+      * intros ar _. rewrite ro_asrc, tagL_tagR. reflexivity.
   - destruct fuel as [|f]; [cbn [length] in Hlen; lia|].
     cbn [length] in Hlen. assert (Hlen' : length t <= f) by lia.
     rewrite ro_pwe_S, concat_arcs_sum. cbn [pw].
     rewrite (bsum_zero _ (warcs a)), (bsum_zero _ (wfinal a)).
     + match goal with |- 0 + (0 + (?l + 0)) = ?r => transitivity l; [ring|] end.
-      apply bsum_ext; intros ar Har. unfold asrc at 1, albl at 1, adst at 1, awt at 1; cbn [fst snd].
-      change (snd (fst (fst ar))) with (albl ar).
+      apply bsum_ext; intros ar Har. rewrite ro_asrc, ro_albl, !ro_adst, !ro_awt.
       rewrite (eqb_inj tagR tagR_inj).
       destruct (Nat.eqb (asrc ar) q); cbn [andb]; [|reflexivity].
       destruct (albl ar) as [c|] eqn:E; [|exfalso; exact (Hb ar Har E)].
       cbn [lbl_eqb]. rewrite (Nat.eqb_sym x c).
       destruct (Nat.eqb c x); [|reflexivity].
-      change (snd (fst ar)) with (adst ar).
       rewrite (IH f (adst ar) Hlen'). reflexivity.
-    + intros fe _. apply bsum_zero; intros i _. unfold asrc; cbn [fst snd].
-      rewrite tagL_tagR. reflexivity.
-    + intros ar _. unfold asrc at 1; cbn [fst snd]. rewrite tagL_tagR. reflexivity.
+    + intros fe _. apply bsum_zero; intros i _. rewrite ro_asrc, tagL_tagR. reflexivity.
+    + intros ar _. rewrite ro_asrc, tagL_tagR. reflexivity.
+Qed.
+
+Lemma concat_step_L (a b : wfsa S)
+      (Ha : forall ar, In ar (warcs a) -> albl ar <> None)
+      (Hb : forall ar, In ar (warcs b) -> albl ar <> None) f q xs :
+  length xs <= f ->
+  pwe (wconcat a b) (Datatypes.S f) (tagL q) xs
+  = bsum (warcs a) (fun ar =>
+      if Nat.eqb (asrc ar) q then
+        match xs with
+        | y :: t => if lbl_eqb (albl ar) y then awt ar * pwe (wconcat a b) f (tagL (adst ar)) t else 0
+        | [] => 0
+        end
+      else 0) +
+    wget (wfinal a) q * pathsum b xs.
+Proof.
+  intros Hlen. rewrite ro_pwe_S, concat_final_L, concat_arcs_sum.
+  rewrite (bsum_zero _ (warcs b)).
+  2:{ intros ar _. rewrite ro_asrc, tagR_tagL. reflexivity. }
+  match goal with |- ?M + _ = _ => replace M with (0 : S) by (destruct xs; reflexivity) end.
+  match goal with |- 0 + (?A + (0 + ?L)) = ?A' + ?L' =>
+    assert (HA : A = A'); [|assert (HL : L = L'); [|rewrite HA, HL; ring]] end.
+  - apply bsum_ext; intros ar Har.
+    rewrite ro_asrc, ro_albl, !ro_adst, !ro_awt, (eqb_inj tagL tagL_inj).
+    destruct (Nat.eqb (asrc ar) q); [|reflexivity].
+    destruct (albl ar) as [c|] eqn:E; [|exfalso; exact (Ha ar Har E)].
+    destruct xs as [|y t]; [reflexivity|]. cbn [lbl_eqb]. rewrite (Nat.eqb_sym y c). reflexivity.
+  - transitivity (bsum (wfinal a) (fun fe => if Nat.eqb (fst fe) q then snd fe * pathsum b xs else 0));
+      [|apply ro_wget_mul].
+    apply bsum_ext; intros fe _.
+    transitivity (bsum (winit b) (fun i =>
+        if Nat.eqb (fst fe) q then snd fe * (snd i * pw b (fst i) xs) else 0)).
+    + apply bsum_ext; intros i _.
+      rewrite ro_asrc, ro_albl, ro_awt, ro_adst, (eqb_inj tagL tagL_inj).
+      destruct (Nat.eqb (fst fe) q); [|reflexivity].
+      rewrite (concat_R a b Hb xs f (fst i) Hlen). ring.
+    + destruct (Nat.eqb (fst fe) q).
+      * unfold pathsum. rewrite <- bsum_mul_l. reflexivity.
+      * apply bsum_zero; reflexivity.
+Qed.
+
+Lemma concat_L (a b : wfsa S)
+      (Ha : forall ar, In ar (warcs a) -> albl ar <> None)
+      (Hb : forall ar, In ar (warcs b) -> albl ar <> None) (xs : list nat) :
+  forall fuel q, length xs < fuel ->
+  pwe (wconcat a b) fuel (tagL q) xs
+  = bsum (splits xs) (fun p => pw a q (fst p) * pathsum b (snd p)).
+Proof.
+  induction xs as [|x t IH]; intros fuel q Hlen;
+    (destruct fuel as [|f]; [cbn [length] in Hlen; lia|]); cbn [length] in Hlen.
+  - rewrite (concat_step_L a b Ha Hb) by (cbn [length]; lia). rewrite ro_conv_nil.
+    rewrite bsum_zero; [ring|]. intros ar _. destruct (Nat.eqb (asrc ar) q); reflexivity.
+  - rewrite (concat_step_L a b Ha Hb) by (cbn [length]; lia). rewrite ro_conv_step.
+    match goal with |- ?A + ?B = ?B + ?A' => assert (HA : A = A'); [|rewrite HA; ring] end.
+    apply bsum_ext; intros ar _.
+    destruct (Nat.eqb (asrc ar) q), (lbl_eqb (albl ar) x); cbn [andb]; try reflexivity.
+    rewrite (IH f (adst ar)) by lia. reflexivity.
+Qed.
+
+Theorem concat_pathsum : forall (a b : wfsa S) (xs : list nat) (fuel : nat),
+  (forall ar, In ar (warcs a) -> albl ar <> None) ->
+  (forall ar, In ar (warcs b) -> albl ar <> None) ->
+  length xs < fuel ->
+  pathsum_e (wconcat a b) fuel xs
+  = bsum (splits xs) (fun p => pathsum a (fst p) * pathsum b (snd p)).
+Proof.
+  intros a b xs fuel Ha Hb Hlen. rewrite <- ro_conv_init.
+  unfold pathsum_e. unfold wconcat at 1, rename; cbn [winit]. rewrite bsum_map.
+  apply bsum_ext; intros i _. cbn [fst snd].
+  rewrite (concat_L a b Ha Hb xs fuel (fst i) Hlen). reflexivity.
+Qed.
+
+(* ------------------------------------------------------------------ *)
+(* 2. one, zero, lift                                                   *)
+
+Theorem one_pathsum : forall xs fuel, 1 <= fuel ->
+  pathsum_e (wone (S:=S)) fuel xs = match xs with [] => 1 | _ => 0 end.
+Proof.
+  intros xs fuel Hf. destruct fuel as [|f]; [lia|].
+  unfold pathsum_e, wone, wlift; cbn [winit]. rewrite bsum_cons, bsum_nil. cbn [fst snd].
+  rewrite ro_pwe_S; cbn [wfinal warcs]. rewrite bsum_cons, bsum_nil.
+  rewrite ro_asrc, ro_albl, ro_awt, ro_adst. cbn [Nat.eqb].
+  unfold wget at 1. rewrite bsum_cons, bsum_nil. cbn [fst snd Nat.eqb].
+  destruct f as [|f'].
+  - rewrite ro_pwe_O; cbn [wfinal]. unfold wget. rewrite bsum_cons, bsum_nil. cbn [fst snd Nat.eqb].
+    destruct xs; ring.
+  - rewrite ro_pwe_S; cbn [wfinal warcs]. rewrite bsum_cons, bsum_nil.
+    rewrite ro_asrc. cbn [Nat.eqb].
+    unfold wget. rewrite bsum_cons, bsum_nil. cbn [fst snd Nat.eqb].
+    destruct xs; ring.
+Qed.
+
+Theorem zero_weight : forall xs, weight (wzero (S:=S)) xs = 0.
+Proof. intros xs. reflexivity. Qed.
+
+Theorem lift_weight : forall (x : nat) (w : S) xs,
+  weight (wlift (Some x) w) xs
+  = match xs with [y] => if Nat.eqb x y then w else 0 | _ => 0 end.
+Proof.
+  intros x w xs. rewrite forward_pathsum.
+  unfold pathsum, wlift; cbn [winit]. rewrite bsum_cons, bsum_nil. cbn [fst snd].
+  destruct xs as [|y t].
+  - cbn [pw wfinal]. unfold wget. rewrite bsum_cons, bsum_nil. cbn [fst snd Nat.eqb]. ring.
+  - cbn [pw warcs]. rewrite bsum_cons, bsum_nil.
+    rewrite ro_asrc, ro_albl, ro_awt, ro_adst. cbn [Nat.eqb andb lbl_eqb].
+    rewrite (Nat.eqb_sym y x).
+    destruct t as [|z t'].
+    + cbn [pw wfinal]. unfold wget. rewrite bsum_cons, bsum_nil. cbn [fst snd Nat.eqb].
+      destruct (Nat.eqb x y); ring.
+    + cbn [pw warcs]. rewrite bsum_cons, bsum_nil. rewrite ro_asrc. cbn [Nat.eqb andb].
+      destruct (Nat.eqb x y); ring.
+Qed.
+
+(* ------------------------------------------------------------------ *)
+(* 3. Kleene plus                                                       *)
+
+Fixpoint kplus (a : wfsa S) (n : nat) (xs : list nat) : S :=
+  pathsum a xs +
+  match n with
+  | O => 0
+  | Datatypes.S n' => bsum (splits xs) (fun p => match fst p, snd p with
+                                                | _ :: _, _ :: _ => pathsum a (fst p) * kplus a n' (snd p)
+                                                | _, _ => 0 end)
+  end.
+
+Lemma kplus_stable (a : wfsa S) : forall n m v,
+  length v <= n -> length v <= m -> kplus a n v = kplus a m v.
+Proof.
+  induction n as [|n IH]; intros m v Hn Hm.
+  - destruct v as [|y v]; [|cbn [length] in Hn; lia].
+    destruct m as [|m]; cbn [kplus]; [reflexivity|].
+    cbn [splits]. rewrite bsum_cons, bsum_nil. cbn [fst snd]. ring.
+  - destruct m as [|m].
+    + destruct v as [|y v]; [|cbn [length] in Hm; lia].
+      cbn [kplus splits]. rewrite bsum_cons, bsum_nil. cbn [fst snd]. ring.
+    + cbn [kplus]. f_equal. apply bsum_ext; intros p Hp.
+      pose proof (ro_splits_length v p Hp) as Hl.
+      destruct (fst p) as [|u1 u] eqn:E1; [reflexivity|].
+      destruct (snd p) as [|v1 v'] eqn:E2; [reflexivity|].
+      f_equal. cbn [length] in Hl. apply IH; cbn [length]; lia.
+Qed.
+
+Definition KP (a : wfsa S) (v : list nat) : S := kplus a (length v) v.
+Definition KP' (a : wfsa S) (v : list nat) : S := match v with [] => 0 | _ => KP a v end.
+(* value of the plus machine from state q *)
+Definition GP (a : wfsa S) (q : nat) (xs : list nat) : S :=
+  pw a q xs + bsum (splits xs) (fun p => pw a q (fst p) * KP' a (snd p)).
+
+Lemma KP_unfold (a : wfsa S) v :
+  KP a v = pathsum a v +
+           bsum (splits v) (fun p => match fst p, snd p with
+                                     | _ :: _, _ :: _ => pathsum a (fst p) * KP a (snd p)
+                                     | _, _ => 0 end).
+Proof.
+  destruct v as [|x t].
+  - unfold KP. cbn [length kplus splits]. rewrite bsum_cons, bsum_nil. cbn [fst snd]. ring.
+  - unfold KP at 1. cbn [length kplus]. f_equal. apply bsum_ext; intros p Hp.
+    pose proof (ro_splits_length (x :: t) p Hp) as Hl.
+    destruct (fst p) as [|u1 u] eqn:E1; [reflexivity|].
+    destruct (snd p) as [|v1 v'] eqn:E2; [reflexivity|].
+    f_equal. unfold KP. cbn [length] in Hl. apply kplus_stable; cbn [length]; lia.
+Qed.
+
+Lemma plus_arcs_sum (a : wfsa S) (F : arc S -> S) :
+  bsum (warcs (wplus a)) F
+  = bsum (warcs a) F +
+    bsum (wfinal a) (fun f => bsum (winit a) (fun i => F (fst f, None, fst i, snd f * snd i))).
+Proof.
+  unfold wplus; cbn [warcs]. rewrite bsum_app, bsum_flat_map. f_equal.
+  apply bsum_ext; intros f _. rewrite bsum_map. reflexivity.
+Qed.
+
+(* one-step unfolding of the plus machine at a state q *)
+Lemma plus_step (a : wfsa S) (Ha : forall ar, In ar (warcs a) -> albl ar <> None) f q xs :
+  pwe (wplus a) (Datatypes.S f) q xs
+  = (match xs with [] => wget (wfinal a) q | _ => 0 end) +
+    bsum (warcs a) (fun ar =>
+      if Nat.eqb (asrc ar) q then
+        match xs with
+        | y :: t => if lbl_eqb (albl ar) y then awt ar * pwe (wplus a) f (adst ar) t else 0
+        | [] => 0
+        end
+      else 0) +
+    wget (wfinal a) q * pathsum_e (wplus a) f xs.
+Proof.
+  rewrite ro_pwe_S, plus_arcs_sum. change (wfinal (wplus a)) with (wfinal a).
+  match goal with |- ?M + (?A + ?L) = ?M + ?A' + ?L' =>
+    assert (HA : A = A'); [|assert (HL : L = L'); [|rewrite HA, HL; ring]] end.
+  - apply bsum_ext; intros ar Har.
+    destruct (Nat.eqb (asrc ar) q); [|reflexivity].
+    destruct (albl ar) as [c|] eqn:E; [|exfalso; exact (Ha ar Har E)].
+    destruct xs as [|y t]; [reflexivity|]. cbn [lbl_eqb]. rewrite (Nat.eqb_sym y c). reflexivity.
+  - transitivity (bsum (wfinal a) (fun fe =>
+        if Nat.eqb (fst fe) q then snd fe * pathsum_e (wplus a) f xs else 0));
+      [|apply ro_wget_mul].
+    apply bsum_ext; intros fe _.
+    transitivity (bsum (winit a) (fun i =>
+        if Nat.eqb (fst fe) q then snd fe * (snd i * pwe (wplus a) f (fst i) xs) else 0)).
+    + apply bsum_ext; intros i _.
+      rewrite ro_asrc, ro_albl, ro_awt, ro_adst.
+      destruct (Nat.eqb (fst fe) q); [|reflexivity]. ring.
+    + destruct (Nat.eqb (fst fe) q).
+      * unfold pathsum_e. change (winit (wplus a)) with (winit a).
+        rewrite <- bsum_mul_l. reflexivity.
+      * apply bsum_zero; reflexivity.
+Qed.
+
+Lemma GP_nil (a : wfsa S) q : GP a q [] = wget (wfinal a) q.
+Proof. unfold GP. rewrite ro_conv_nil. cbn [pw KP']. ring. Qed.
+
+Lemma GP_cons (a : wfsa S) q x t :
+  GP a q (x :: t)
+  = bsum (warcs a) (fun ar =>
+      if Nat.eqb (asrc ar) q && lbl_eqb (albl ar) x then awt ar * GP a (adst ar) t else 0) +
+    wget (wfinal a) q * KP a (x :: t).
+Proof.
+  unfold GP at 1. rewrite ro_conv_step. change (KP' a (x :: t)) with (KP a (x :: t)).
+  cbn [pw].
+  transitivity (bsum (warcs a) (fun ar =>
+      (if Nat.eqb (asrc ar) q && lbl_eqb (albl ar) x then awt ar * pw a (adst ar) t else 0) +
+      (if Nat.eqb (asrc ar) q && lbl_eqb (albl ar) x
+       then awt ar * bsum (splits t) (fun p => pw a (adst ar) (fst p) * KP' a (snd p)) else 0))
+    + wget (wfinal a) q * KP a (x :: t)).
+  - rewrite bsum_add. ring.
+  - f_equal. apply bsum_ext; intros ar _. unfold GP.
+    destruct (Nat.eqb (asrc ar) q && lbl_eqb (albl ar) x); ring.
+Qed.
+
+Section PlusHyp.
+Variable a : wfsa S.
+Hypothesis Ha : forall ar, In ar (warcs a) -> albl ar <> None.
+Hypothesis Hif : forall i f, In i (winit a) -> In f (wfinal a) -> fst i <> fst f.
+
+Lemma init_not_final i : In i (winit a) -> wget (wfinal a) (fst i) = 0.
+Proof.
+  intros Hi. unfold wget. apply bsum_zero; intros fe Hfe.
+  destruct (Nat.eqb (fst i) (fst fe)) eqn:E; [|reflexivity].
+  apply Nat.eqb_eq in E. exfalso; exact (Hif i fe Hi Hfe E).
+Qed.
+
+Lemma pathsum_nil_zero : pathsum a [] = 0.
+Proof.
+  unfold pathsum. apply bsum_zero; intros i Hi. cbn [pw]. rewrite (init_not_final i Hi). ring.
+Qed.
+
+Lemma KP_init v : bsum (winit a) (fun i => snd i * GP a (fst i) v) = KP a v.
+Proof.
+  unfold GP.
+  transitivity (bsum (winit a) (fun i => snd i * pw a (fst i) v) +
+                bsum (winit a) (fun i => snd i *
+                   bsum (splits v) (fun p => pw a (fst i) (fst p) * KP' a (snd p)))).
+  - rewrite <- bsum_add. apply bsum_ext; intros i _. ring.
+  - rewrite ro_conv_init, KP_unfold.
+    change (bsum (winit a) (fun i => snd i * pw a (fst i) v)) with (pathsum a v). f_equal.
+    apply bsum_ext; intros p _.
+    destruct (fst p) as [|u1 u] eqn:E1.
+    + rewrite pathsum_nil_zero. ring.
+    + destruct (snd p) as [|v1 v'] eqn:E2; cbn [KP']; [ring|reflexivity].
+Qed.
+
+Lemma plus_main : forall xs,
+  (forall fuel q, 2 * length xs <= fuel -> pwe (wplus a) fuel q xs = GP a q xs) /\
+  (forall fuel i, In i (winit a) -> 2 * length xs <= fuel + 1 ->
+                  pwe (wplus a) fuel (fst i) xs = GP a (fst i) xs).
+Proof.
+  induction xs as [|x t [IH1 IH2]].
+  - assert (P2 : forall fuel i, In i (winit a) -> pwe (wplus a) fuel (fst i) [] = GP a (fst i) []).
+    { intros fuel i Hi. rewrite GP_nil. destruct fuel as [|f].
+      - rewrite ro_pwe_O. change (wfinal (wplus a)) with (wfinal a). ring.
+      - rewrite (plus_step a Ha), (init_not_final i Hi).
+        rewrite bsum_zero; [ring|]. intros ar _. destruct (Nat.eqb (asrc ar) (fst i)); reflexivity. }
+    split; [|intros fuel i Hi _; apply P2, Hi].
+    intros fuel q _. rewrite GP_nil. destruct fuel as [|f].
+    + rewrite ro_pwe_O. change (wfinal (wplus a)) with (wfinal a). ring.
+    + rewrite (plus_step a Ha).
+      rewrite (bsum_zero _ (warcs a)).
+      2:{ intros ar _. destruct (Nat.eqb (asrc ar) q); reflexivity. }
+      assert (H0 : pathsum_e (wplus a) f [] = 0).
+      { unfold pathsum_e. change (winit (wplus a)) with (winit a).
+        apply bsum_zero; intros i Hi. rewrite (P2 f i Hi), GP_nil, (init_not_final i Hi). ring. }
+      rewrite H0. ring.
+  - assert (P2 : forall fuel i, In i (winit a) -> 2 * length (x :: t) <= fuel + 1 ->
+                   pwe (wplus a) fuel (fst i) (x :: t) = GP a (fst i) (x :: t)).
+    { intros fuel i Hi Hlen. cbn [length] in Hlen. destruct fuel as [|f]; [lia|].
+      rewrite (plus_step a Ha), GP_cons, (init_not_final i Hi). cbv beta iota.
+      match goal with |- 0 + ?A + 0 * _ = ?A' + 0 * _ => assert (HA : A = A'); [|rewrite HA; ring] end.
+      apply bsum_ext; intros ar _.
+      destruct (Nat.eqb (asrc ar) (fst i)), (lbl_eqb (albl ar) x); cbn [andb]; try reflexivity.
+      rewrite (IH1 f (adst ar)) by lia. reflexivity. }
+    split; [|exact P2].
+    intros fuel q Hlen. cbn [length] in Hlen. destruct fuel as [|f]; [lia|].
+    rewrite (plus_step a Ha), GP_cons. cbv beta iota.
+    assert (HK : pathsum_e (wplus a) f (x :: t) = KP a (x :: t)).
+    { rewrite <- KP_init. unfold pathsum_e. change (winit (wplus a)) with (winit a).
+      apply bsum_ext; intros i Hi. rewrite (P2 f i Hi) by (cbn [length]; lia). reflexivity. }
+    rewrite HK.
+    match goal with |- 0 + ?A + ?L = ?A' + ?L => assert (HA : A = A'); [|rewrite HA; ring] end.
+    apply bsum_ext; intros ar _.
+    destruct (Nat.eqb (asrc ar) q), (lbl_eqb (albl ar) x); cbn [andb]; try reflexivity.
+    rewrite (IH1 f (adst ar)) by lia. reflexivity.
+Qed.
+
+End PlusHyp.
+
+Theorem plus_unfold : forall (a : wfsa S) (xs : list nat),
+  (forall ar, In ar (warcs a) -> albl ar <> None) ->
+  (forall i f, In i (winit a) -> In f (wfinal a) -> fst i <> fst f) ->
+  forall fuel, 2 * length xs < fuel ->
+  pathsum_e (wplus a) fuel xs = kplus a (length xs) xs.
+Proof.
+  intros a xs Ha Hif fuel Hlen.
+  change (kplus a (length xs) xs) with (KP a xs). rewrite <- (KP_init a Hif).
+  unfold pathsum_e. change (winit (wplus a)) with (winit a).
+  apply bsum_ext; intros i _.
+  rewrite (proj1 (plus_main a Ha Hif xs) fuel (fst i)) by lia. reflexivity.
 Qed.
 
 End RationalOps.
+
+Arguments kplus {S} a n xs.
+
+Print Assumptions concat_pathsum.
+Print Assumptions one_pathsum.
+Print Assumptions zero_weight.
+Print Assumptions lift_weight.
+Print Assumptions plus_step.
+Print Assumptions plus_unfold.
